@@ -9,6 +9,10 @@ case = {'side': 'client'|'server', 'api': 'data'|'message', 'lens': [int,...],
            the difference first; above: a connection WINDOW_UPDATE)
   mf0      the peer's SETTINGS_MAX_FRAME_SIZE
   ops      ws i k | wc k | iw v | mf m | p | r | q | qp k | rst | rp     (see ocaml/dC07.ml)
+           st [[iw, v], [mf, m], [mcs, n], [unk, k]]   ONE SETTINGS frame carrying any subset of INITIAL_WINDOW_SIZE,
+                 MAX_FRAME_SIZE, MAX_CONCURRENT_STREAMS and the unknown setting id 0x99
+           b [op, ...]   several peer frames (ws | wc | iw | mf | st) queued by the peer and delivered in ONE
+                 read (one data_received call: h2 has applied all of them before grpclib sees the first event)
            rst = Stream.reset_nowait() on one of NVICTIMS extra open streams of the connection (another
                  call being cancelled); rp = the transport resumes and pauses again from inside the first
                  write() that follows (the flush of Connection.resume_writing, if h2 has something queued)
@@ -253,6 +257,30 @@ class Rig:
         return out
 
 
+UNKNOWN_SETTING = 0x99
+
+
+def queue_frame(rig, op):
+    """queue one frame in the peer's h2 without sending it"""
+    peer, tok = rig.peer, op[0]
+    if tok == 'ws':
+        peer.window_update(rig.streams[op[1]].id, op[2], flush=False)
+    elif tok == 'wc':
+        peer.window_update(0, op[1], flush=False)
+    elif tok == 'iw':
+        peer.settings({SettingCodes.INITIAL_WINDOW_SIZE: op[1]}, flush=False)
+    elif tok == 'mf':
+        peer.settings({SettingCodes.MAX_FRAME_SIZE: op[1]}, flush=False)
+    elif tok == 'st':
+        vals = {}
+        for k, v in op[1]:                      # list of [name, value]: the order inside the frame
+            vals[{'iw': SettingCodes.INITIAL_WINDOW_SIZE, 'mf': SettingCodes.MAX_FRAME_SIZE,
+                  'mcs': SettingCodes.MAX_CONCURRENT_STREAMS, 'unk': UNKNOWN_SETTING}[k]] = v
+        peer.settings(vals, flush=False)
+    else:
+        raise ValueError('not a peer frame: %r' % (op,))
+
+
 def run_case(case):
     """Returns a dict: 'records' (one per q/qp: what the model prints), 'frames' (every DATA frame in
     arrival order with the op index after which it arrived), 'violations', 'final' ..."""
@@ -276,14 +304,13 @@ def run_case(case):
             rig.calls = 0
             paused_before = rig.transport.paused
             try:
-                if tok == 'ws':
-                    peer.window_update(rig.streams[op[1]].id, op[2])
-                elif tok == 'wc':
-                    peer.window_update(0, op[1])
-                elif tok == 'iw':
-                    peer.settings({SettingCodes.INITIAL_WINDOW_SIZE: op[1]})
-                elif tok == 'mf':
-                    peer.settings({SettingCodes.MAX_FRAME_SIZE: op[1]})
+                if tok in ('ws', 'wc', 'iw', 'mf', 'st'):
+                    queue_frame(rig, op)
+                    peer.flush()
+                elif tok == 'b':
+                    for sub in op[1]:
+                        queue_frame(rig, sub)
+                    peer.flush()                  # one write -> one data_received
                 elif tok == 'p':
                     rig.transport.pause()
                 elif tok == 'r':
